@@ -40,6 +40,9 @@ func constDeletes(fn *ssa.Function) map[string]bool {
 
 func runC02(c *Ctx) {
 	p := c.P
+	// clauses this property shares with others (see DESIGN.md section 6a)
+	defer c.ImportRules("C17", "C17.4")
+	defer c.ImportRules("C12", "C12.4")
 	handle := p.MustFunc("(*operation).handle")
 	validate := p.MustFunc("(*operation).validate")
 	rmT := p.MustNamed("requestMeta")
@@ -314,6 +317,10 @@ func runC02(c *Ctx) {
 	c.Rule("C02.8", "content types: each target protocol writes its own wire format's Content-Type prefix; the request classifier maps each prefix to that protocol", 10)
 	checkContentTypeTables(c, "C02.8", "serverProtocolHandler", "addProtocolRequestHeaders", "requestMeta")
 	checkClassification(c, "C02.8")
+
+	// ---------------------------------------------------------------- C02.9
+	c.Rule("C02.9", "request-side adapters read only the request direction's compression cells", 5)
+	checkDirectionCells(c, "C02.9", false)
 
 	// ---------------------------------------------------------------- C02.5
 	c.Rule("C02.5", "envelope flag tables equal the protocols' wire formats", 20)
